@@ -20,6 +20,8 @@ PROPS_MODULES += ['RTV.Props.C08Config', 'RTV.Props.C08ConfigWords', 'RTV.Props.
 GEN = []
 GEN += ['cultureconfig']
 REQUIRED_THEOREMS = ['this_in_iso_week', 'next_is_following_week', 'last_is_preceding_week', 'today_is_reference_date',
+                     'next_defined', 'last_defined', 'weekday_branches_defined', 'special_day_defined', 'week_period_defined',
+                     'year_period_defined', 'zh_n_years_ago', 'zh_n_years_later', 'zh_n_months_ago', 'zh_n_months_later',
                      'tomorrow_is_next_day', 'yesterday_is_previous_day', 'n_days_ago', 'in_n_days', 'n_weeks_is_7n_days',
                      'this_week_is_monday_to_monday', 'week_timex_matches_isocalendar', 'year_period',
                      'month_period_fixed', 'month_period_prefix_partial', 'next_month_prefix_regression', 'now_is_reference',
